@@ -26,6 +26,8 @@ Cat == {
   Ok(<<>>, << Svc(<<1>>, <<T(1), <<"quic", 2>>>>) >>),                          \* invalid: unsupported listener type
   Ok(<<>>, << Svc(<<3>>, <<T(1), <<"TCP", 2>>>>) >>),                           \* invalid: listener types are matched exactly ("TCP" is not "tcp")
   Ok(<<>>, << Svc(<<2>>, <<<<"Udp", 1>>, T(3)>>) >>),                            \* invalid: the same, first listener
+  Ok(<< <<4, 1>> >>, << Svc(<<2>>, <<<<"tcp", 15>>>>) >>),                       \* valid, cannot start: ":P" and "[::]:P" are one socket
+  Ok(<<>>, << Svc(<<1>>, <<<<"udp", 14>>>>), Svc(<<2>>, <<<<"udp", 15>>>>) >>),   \* valid, cannot start: "0.0.0.0:P" and "[::]:P"
   Ok(<<>>, << Svc(<<2>>, <<U(11)>>) >>),                                       \* invalid: host is not an IP
   Ok(<<>>, << Svc(<<3>>, <<T(2)>>), Svc(<<1>>, <<T(12)>>) >>),                  \* invalid: address without a port
   Ok(<<>>, << Svc(<<1, 2>>, <<T(13), U(1)>>) >>),                               \* invalid: empty host
